@@ -401,9 +401,9 @@ func execConv(a []string) (string, string) {
 		} else {
 			valS += " ~lin=?"
 		}
-		// the three linearisations computed with correctly rounded operations only (1/x, x², x³): the float64 returned, as the
+		// the four linearisations computed with correctly rounded operations only (1/x, x², x³, √x): the float64 returned, as the
 		// exact rational it is, compared bit for bit with the model's binary64 evaluation
-		if n == 7 || n == 8 || n == 9 {
+		if n == 7 || n == 8 || n == 9 || n == 10 {
 			switch {
 			case math.IsInf(val, 1):
 				valS += " ~nl=inf"
